@@ -147,6 +147,7 @@ type genCtx struct {
 	harness string
 	repo    string
 	goEnv   []string
+	gp      *gpHook // translator tie of the plugin's decision logic (genprog.go): context lines + GENPROGRUN lines
 }
 
 func newGenCtx(cfg config, o *out) *genCtx {
@@ -253,6 +254,7 @@ func engineGen(cfg config, o *out) {
 		reqs = append(reqs, r)
 	}
 	o.hist["programs"] = len(reqs)
+	g.gp = newGpHook(o)
 	switch mode {
 	case "c12":
 		g.runC12(reqs)
@@ -540,6 +542,7 @@ func (g *genCtx) paramVariants(reqs []*genReq, states []*c12State) {
 		obs := observedFeatures(res)
 		n3 := r.proto3Requested(r.generate)
 		o.kase("GENFEAT", []string{"[" + j.feats + "]", fmt.Sprint(n3), hasMsgFlag(r)}, featObs(obs, r))
+		g.gp.mainLine(o, r, replaceFeatures(r.param, j.feats), res)
 		o.count("feat/" + obs)
 		o.nontrivial("feat/" + j.feats + "/" + obs)
 		if bad, why := res.crashed(); bad {
@@ -594,6 +597,11 @@ func (g *genCtx) paramVariants(reqs []*genReq, states []*c12State) {
 	for k, j := range pj {
 		r, st, res := reqs[j.i], states[j.i], pres[k]
 		o.count("param/" + j.kind)
+		switch j.kind {
+		case "unknown-flag", "default-features", "empty-params":
+			// the flag handling of main, interpreted: an unknown flag ends the process, no features= means "all"
+			g.gp.mainLine(o, r, j.param, res)
+		}
 		switch j.kind {
 		case "unknown-flag", "bad-paths", "bad-pool":
 			// protogen's convention for a bad parameter: exit status 1 and a one-line message on stderr (protoc prints it); a
@@ -1018,6 +1026,8 @@ func (g *genCtx) identLines(st *c12State) {
 	for _, f := range st.res.resp.File {
 		contentOf[f.GetName()] = f.GetContent()
 	}
+	gpObs := &gpRewriteObs{}
+	defer func() { g.gp.rewriteLine(o, st.req, pl, gpObs) }()
 	for _, file := range pl.Files {
 		if !file.Generate || file.Desc.Syntax() != protoreflect.Proto3 {
 			continue
@@ -1096,6 +1106,7 @@ func (g *genCtx) identLines(st *c12State) {
 			}
 			return sb.String()
 		}
+		gpObs.file(file, structField)
 		treeS := tree(file.Messages)
 		if treeS == "" {
 			treeS = "()"
